@@ -155,6 +155,92 @@ func checkC04(c *Ctx) {
 	// every deal still opens under its addressee's key only
 	nameSets := [][]string{{"Alice", "alice", "bob"}, {"carol", "carol ", "CAROL", " carol"}, {"node", "node_", "node_1", "Node_1"}}
 	Parallel(len(nameSets), 4, func(i int) { runC04Names(c, nameSets[i], c.Seed*151+uint64(i)) })
+	// (g) user names re-bound to other machines between two rounds
+	Parallel(c.Pick(2, 12), 4, func(i int) { runC04Swapped(c, c.Seed*157+uint64(i)) })
+}
+
+// runC04Swapped: after a completed round two operators swap machines (the same user names are now
+// bound to other long-term keys); in the next round every deal must open under the key of the machine
+// that is NOW behind the addressee's name, and under no other.
+func runC04Swapped(c *Ctx, seed uint64) {
+	n, t := 3+int(seed%2), 2
+	wit := map[string]interface{}{"family": "machines swapped between two rounds", "n": n, "t": t, "case_seed": seed}
+	w, err := world.NewWorld(world.Options{N: n, T: t, Seed: seed})
+	if err != nil {
+		c.Inconclusive("world: %v", err)
+		return
+	}
+	ce := &Ceremony{W: w, N: n, T: t}
+	defer ce.Close()
+	if ce.Round, err = w.StartDKG(0, t, now()); err != nil {
+		c.Inconclusive("start: %v", err)
+		return
+	}
+	w.Run(world.RandomPolicy, 6000)
+	if !ce.AllIn(StIdle) {
+		c.Inconclusive("first round: %v", ce.States())
+		return
+	}
+	a, b := w.Nodes[1], w.Nodes[n-1]
+	if seed%2 == 0 {
+		a.Cold, b.Cold = b.Cold, a.Cold
+		a.ColdDir, b.ColdDir = b.ColdDir, a.ColdDir
+		a.Mnemonic, b.Mnemonic = b.Mnemonic, a.Mnemonic
+	} else {
+		// one operator's machine is replaced by a new one (new seed) instead
+		wit["family"] = "a machine replaced between two rounds"
+		dir := filepath.Join(w.Dir, "replacement", "db")
+		_ = os.MkdirAll(filepath.Dir(dir), 0o755)
+		mn := world.MnemonicFor(sched.Derive(seed, 0x4E57))
+		nm, err := world.OpenCold(dir, mn, world.Password)
+		if err != nil {
+			c.Inconclusive("replacement machine: %v", err)
+			return
+		}
+		b.AbandonCold(nm)
+		b.ColdDir, b.Mnemonic = dir, mn
+	}
+	suite := oracle.NewSuite()
+	sks := make([]kyber.Scalar, n)
+	for i, nd := range w.Nodes {
+		sks[i] = oracle.LongTermKey(oracle.SeedFromMnemonic(nd.Mnemonic))
+		if !suite.Point().Mul(sks[i], nil).Equal(nd.Cold.GetPubKey()) {
+			c.Inconclusive("long-term key of %s does not validate after the swap", nd.Name)
+			return
+		}
+	}
+	ce2 := &Ceremony{W: w, N: n, T: t}
+	if ce2.Round, err = w.StartDKG(1, t, now().Add(time.Second)); err != nil {
+		c.Inconclusive("second start: %v", err)
+		return
+	}
+	w.Run(world.RandomPolicy, 6000)
+	deals := 0
+	for _, m := range BoardMsgs(w, ce2.Round, EvDeal) {
+		var r requests.DKGProposalDealConfirmationRequest
+		if json.Unmarshal(m.Data, &r) != nil || string(r.Deal) == "self-confirm" {
+			continue
+		}
+		deals++
+		for i, nd := range w.Nodes {
+			_, err := ecies.Decrypt(suite, sks[i], r.Deal, suite.Hash)
+			c.Eval(1)
+			if nd.Name == m.RecipientAddr {
+				if err != nil {
+					c.Violate("C04/addressee-cannot-open-its-deal", fmt.Sprintf("second round (%v): %s -> %s: %v", wit["family"], m.SenderAddr, m.RecipientAddr, err), wit)
+				}
+			} else if err == nil {
+				c.Violate("C04/deal-opens-under-a-non-addressee-key", fmt.Sprintf("second round (%v): deal %s -> %s opens under the key of the machine now behind %s", wit["family"], m.SenderAddr, m.RecipientAddr, nd.Name), wit)
+			}
+		}
+	}
+	c.Distinct(fmt.Sprintf("swapped-machines|n%d", n))
+	c.Add("deals_after_a_machine_swap", deals)
+	if deals == 0 {
+		c.Inconclusive("no deal was posted in the round after the swap (states %v)", ce2.States())
+	} else if !ce2.AllIn(StIdle) {
+		c.Violate("C04/addressee-cannot-open-its-deal", fmt.Sprintf("the round after the swap does not complete: %v", ce2.States()), wit)
+	}
 }
 
 func runC04Names(c *Ctx, names []string, seed uint64) {
